@@ -48,6 +48,7 @@ type arrival struct {
 }
 
 type thread struct {
+	lib    bool
 	id     int
 	grant  chan struct{}
 	at     *arrival // parked at this point (nil = running or finished)
@@ -172,8 +173,25 @@ func Spawn(pos string) int {
 	curSpawn = -1
 	if id <= 0 {
 		id = -1
+	} else {
+		libSpawn[id] = !strings.Contains(pos, "zz_verif_")
 	}
 	return id
+}
+
+var libSpawn = map[int]bool{}
+
+// LibGoroutinesAlive counts goroutines started by library code during the controlled phase that have not ended.
+func LibGoroutinesAlive() int {
+	mu.Lock()
+	defer mu.Unlock()
+	n := 0
+	for id, t := range threads {
+		if libSpawn[id] && !t.done {
+			n++
+		}
+	}
+	return n
 }
 
 func self2() *thread { // mu held
